@@ -171,34 +171,23 @@ func BuildNestFinal(pattern []int, depth int, final int, inner string) []byte {
 // (seeded change C01r5-m2: one of 14 generated copies of the depth guard typed '>' for '>=').
 func W4Final(sink Sink) {
 	bases := [][]int{{0}, {1}, {2}, {3}, {0, 2}, {1, 3}}
-	inners := []string{"", "0"}
+	inners := []string{"", "0", "[]", "{}"} // a container as the innermost value is one more level (C02r7-m1: an empty-array fast path that skips the push and with it the depth check)
 	c := &h.Case{Family: "W4F"}
 	c.DescFn = func(c *h.Case) string {
-		return fmt.Sprintf("nest pattern=%v for %d levels, then one level opened by unit %q, inner=%q", bases[c.P[0]], c.P[1]-1, NestUnits[c.P[2]].Open, inners[c.P[3]])
+		return fmt.Sprintf("nest pattern=%v, total depth %d: the last opener before the innermost value %q is unit %q", bases[c.P[0]], c.P[1], inners[c.P[3]], NestUnits[c.P[2]].Open)
 	}
 	for bi, base := range bases {
-		for _, d := range []int{10000, 10001} {
-			for ui, u := range NestUnits {
+		for _, total := range []int{10000, 10001} {
+			for ui := range NestUnits {
 				for ii, inner := range inners {
-					var b bytes.Buffer
-					for i := 0; i < d-1; i++ {
-						b.WriteString(NestUnits[base[i%len(base)]].Open)
+					d := total
+					if inner == "[]" || inner == "{}" {
+						d = total - 1
 					}
-					if inner == "" {
-						b.WriteByte(u.Open[0])
-						b.WriteByte(u.Close[len(u.Close)-1])
-					} else {
-						b.WriteString(u.Open)
-						b.WriteString(inner)
-						b.WriteString(u.Close)
-					}
-					for i := d - 2; i >= 0; i-- {
-						b.WriteString(NestUnits[base[i%len(base)]].Close)
-					}
-					c.Input = b.Bytes()
+					c.Input = BuildNestFinal(base, d, ui, inner)
 					c.Desc = ""
-					c.Deep = d > 10000 || MaxNesting(c.Input) > 10000
-					c.P = [4]int{bi, d, ui, ii}
+					c.Deep = MaxNesting(c.Input) > 10000
+					c.P = [4]int{bi, total, ui, ii}
 					sink(c)
 				}
 			}
